@@ -60,7 +60,7 @@ LEVEL_NOTE = ('Trusted: mc.canon, the recording policy. Bounds: bytes <= 5 '
 def bounds(tier):
   if tier == 'quick':
     return dict(bytes_len=6, n=2, n_small=3)
-  return dict(bytes_len=7, n=3, n_small=3)
+  return dict(bytes_len=7, n=2, n_small=4)
 
 
 BYTE_ALPHA = [b'\\', b'u', b'U', b'x', b'N', b'0', b'4', b'\xff']
